@@ -74,7 +74,12 @@ func c19Creds() ([]c19Cred, error) {
 	pool.AppendCertsFromPEM(resources.CACrt)
 	tlsDial := func(certs []tls.Certificate) func(string) (*grpc.ClientConn, error) {
 		return func(addr string) (*grpc.ClientConn, error) {
-			cfg := &tls.Config{RootCAs: pool, ServerName: "signer-test01", Certificates: certs, MinVersion: tls.VersionTLS13}
+			cfg := &tls.Config{RootCAs: pool, ServerName: "signer-test01", MinVersion: tls.VersionTLS13}
+			if len(certs) > 0 {
+				// Present the certificate whatever authorities the server says it accepts (a hostile client would).
+				c := certs[0]
+				cfg.GetClientCertificate = func(*tls.CertificateRequestInfo) (*tls.Certificate, error) { return &c, nil }
+			}
 			return grpc.NewClient(addr, grpc.WithTransportCredentials(credentials.NewTLS(cfg)))
 		}
 	}
